@@ -242,6 +242,10 @@ class LG:
         if t == "def_nested_by_name":
             self.k += 1
             m = self.k
+            if r.random() < 0.4:
+                # a one-line def (inside an indented block) whose return holds a multi-line string: continuation lines more and less
+                # indented than the def
+                return t, True, True, f"def sel({p}): return ({p}.n{m}, {p}.g(\'\'\'ab{m}\n{{IND}}        cd\n  ef\nx\'\'\'))\n{{IND}}def other({p}): return {p}.decoy{m}\n{{IND}}r = ds.Select(sel)", "def-multiline-string"
             return t, True, True, f"def sel({p}): return ({p}.n{m}, {p}.f{m}({m}))\n{{IND}}def other({p}): return {p}.decoy{m}\n{{IND}}r = ds.Select(sel)", "attr"
         if t == "kwarg_lambda":
             b, f = B()
